@@ -57,7 +57,12 @@ def recipes(cg, c, r, tmpdir):
     R["tx.strip_inputs"] = lambda: T.strip_inputs(c)
     R["tx.strip_blackboxes"] = lambda: T.strip_blackboxes(c, r.choice([None, "clk", ["d"]]))
     R["tx.relabel"] = lambda: T.relabel(c, {n1: n1 + "_r"})
-    R["tx.subcircuit"] = lambda: T.subcircuit(c, some, modify_io=r.random() < 0.5)
+    mi = r.random() < 0.5
+    R["tx.subcircuit"] = lambda: T.subcircuit(c, some, modify_io=mi)
+    # arguments of the calls that have an exact as-built model (CGTxMisc): recorded with the result
+    ASBUILT.clear()
+    ASBUILT.update({"tx.strip_io": {}, "tx.strip_inputs": {}, "tx.strip_outputs": {}, "tx.relabel": {"mapping": [[n1, n1 + "_r"]]},
+                    "tx.subcircuit": {"nodes": list(some), "modify_io": mi}})
     R["tx.subcircuit_all"] = lambda: T.subcircuit(c, nodes)
     R["tx.subcircuit_all_io"] = lambda: T.subcircuit(c, set(nodes), modify_io=True)
     R["tx.sensitization_transform_sinks"] = lambda: T.sensitization_transform(c, n0, [o for o in outs if not c.fanout(o)] or None)
@@ -115,6 +120,7 @@ def recipes(cg, c, r, tmpdir):
     return R
 
 
+ASBUILT = {}
 MUTATORS = {"add_subcircuit", "add_blackbox", "fill_blackbox", "add", "remove", "relabel", "connect", "disconnect",
             "set_type", "set_output", "remove_unloaded"}
 EXTERNAL = {"tx.syn", "tx.aig", "utils.visualize"}   # need yosys / genus / dc: not installed
@@ -238,6 +244,8 @@ def run_case(case, ctx):
         ctx.count("calls")
         evs.append({"kind": "frame", "fn": fn, "raised": raised, "before": before, "after": after, "xb": xb, "xa": xa,
                     "nontrivial": bool(raised) or bool(circuits_in(res))})
+        if fn in ASBUILT and not raised and circuits_in(res):
+            evs.append(dict(ASBUILT[fn], kind="as_built", fn=fn, c=before, r=proj(circuits_in(res)[0]), nontrivial=True))
         if (before, xb) != (after, xa):
             # the argument was modified: continue the sweep from a fresh circuit
             c = make_circuit(ctx, ctx.rng("C19", case["salt"]), case["salt"])
@@ -275,6 +283,8 @@ def run_case(case, ctx):
 
 
 def negctl(e, rng):
+    if e.get("kind") not in ("frame", "alias"):
+        return []
     c = copy.deepcopy(e)
     a = c["after"]
     if not a or not a.get("n"):
